@@ -150,6 +150,33 @@ func vpRunLong(decrypt bool) {
 	vp.Cover("end")
 }
 
+// the sizes real callers use: cipher.StreamReader over a 4096-byte bufio buffer
+// decrypts up to 4096 bytes in place per call, packets reach 2 MiB. Totals of
+// 1025, 2049 and 4097 bytes (quick: 1025, 4097) in two calls cut at 0, 1 or
+// 1024, in every buffer arrangement; contents and IV arbitrary.
+func vpRunBig(decrypt bool) {
+	vpSetupNative()
+	totals := []int{1025, 4097, 2049}[:2+vp.Tier()]
+	T := totals[vp.Choice(len(totals))]
+	a := []int{0, 1, 1024}[vp.Choice(3)]
+	vp.SizeBound(T + 8)
+	iv := vp.Bytes(16)
+	msg := vp.Bytes(T)
+	want := vpRefCFB8(iv, msg, decrypt)
+	s := vpNewStream(decrypt, iv)
+	var got []byte
+	got = append(got, vpOneCall(s, msg, 0, a)...)
+	got = append(got, vpOneCall(s, msg, a, T-a)...)
+	vp.Assert(len(got) == T, "all bytes processed")
+	for i := range want {
+		vp.Assert(got[i] == want[i], "output == byte-at-a-time reference")
+	}
+	vp.Cover("end")
+}
+
+func VP_C10_enc_big() { vpRunBig(false) }
+func VP_C10_dec_big() { vpRunBig(true) }
+
 func VP_C10_enc_long() { vpRunLong(false) }
 func VP_C10_dec_long() { vpRunLong(true) }
 
